@@ -290,7 +290,11 @@ EvList(es, s, E) ==
          IF Bad(h) THEN R(<<>>, h.S)
          ELSE LET r == EvList(Tail(es), h.S, E) IN R(<<h.v>> \o r.v, r.S)
 
-TruthR(v, s) == Lift(Truth(v, UK), s)
+\* truth of a value; a data object may define it (__bool__), and that may raise (C38)
+TruthR(v, s) ==
+    IF v.t = "obj" /\ "bool" \in DOMAIN Objs[v.id]
+    THEN (IF Objs[v.id].bool.t = "raiser" THEN Fail(s, "Raised:" \o Objs[v.id].bool.id) ELSE R(Objs[v.id].bool, s))
+    ELSE Lift(Truth(v, UK), s)
 
 \* a < b < c : each operand evaluated once, left to right, stops at the first false link
 EvChain(left, ops, s, E, acc) ==
@@ -618,11 +622,14 @@ ApplyFilter(n, v, args, kw, s, E) ==
                      IF KwGet(kw, "default_value").found THEN KwGet(kw, "default_value").v ELSE VStr(<<>>, FALSE)
                bo == IF Len(args) >= 2 THEN args[2] ELSE
                      IF KwGet(kw, "boolean").found THEN KwGet(kw, "boolean").v ELSE VBool(FALSE)
-               bt == Truth(bo, UK) IN
+               bt0 == TruthR(bo, s)
+               bt == [ok |-> ~Bad(bt0), v |-> bt0.v, err |-> bt0.S.err] IN
            IF ~bt.ok THEN Fail(s, bt.err)
            ELSE IF v.t = "undef" THEN R(dv, s)
            ELSE IF bt.v.b THEN
-                LET vt == Truth(v, UK) IN IF ~vt.ok THEN Fail(s, vt.err) ELSE IF vt.v.b THEN R(v, s) ELSE R(dv, s)
+                LET vt0 == TruthR(v, s)
+                    vt == [ok |-> ~Bad(vt0), v |-> vt0.v, err |-> vt0.S.err] IN
+                IF ~vt.ok THEN Fail(s, vt.err) ELSE IF vt.v.b THEN R(v, s) ELSE R(dv, s)
            ELSE R(v, s)
       [] n \in {"length", "count"} ->
            CASE v.t = "list" -> R(VInt(Len(v.v)), s)
